@@ -57,14 +57,46 @@ var c16Statements = []string{
 	"SELECT id FROM t1 WHERE plain = '%s' ORDER BY id = %d",                               // ORDER BY expression
 }
 
+// statements in the MySQL dialect (MySQL runs)
+var c16MyStatements = []string{
+	"INSERT INTO t1 (id, plain, c1) VALUES (%d, '%s', '%s-prot')",
+	"SELECT id, plain, c1 FROM t1 WHERE plain = '%s' AND id = %d",
+	"SELECT id, plain FROM t1 WHERE plain IN ('%s', '%s-b') OR id BETWEEN %d AND 999999999999999",
+	"SELECT id FROM t1 WHERE plain LIKE '%s%%' LIMIT %d",
+	"UPDATE t1 SET plain = '%s' WHERE id = %d",
+	"DELETE FROM t2 WHERE note = '%s' AND id = %d",
+	"SELECT id, note FROM t9 WHERE note = '%s' AND id = %d",            // rejected by the firewall (table t9)
+	"SELEC id FRM t2 WHERE note = '%s' AND id = %d",                    // unparsable
+	"SELECT id, note FROM no_such_table WHERE note = '%s' AND id = %d", // database error
+	"SELECT id, plain FROM t1 WHERE plain = \"%s\" AND id = %d",        // double-quoted string
+	"SELECT id, plain FROM t1 WHERE plain = '%s' AND id = -%d",         // negative number
+	"SELECT id, plain FROM t1 WHERE id = %d.5e0 AND plain = '%s'",      // decimal / exponent
+	"CREATE TABLE zz (a text DEFAULT '%s', b bigint DEFAULT %d)",       // DDL
+	"SELECT upper('%s'), id FROM t1 WHERE id = %d",                     // function argument
+	"SELECT id FROM t1 WHERE plain = (SELECT note FROM t2 WHERE note = '%s' AND id = %d)",
+	"SELECT '%s', %d FROM t1",
+	"SELECT plain, count(*) FROM t1 GROUP BY plain HAVING plain = '%s' OR count(*) > %d",
+	"SELECT id FROM t1 WHERE plain = '%s' UNION SELECT id FROM t2 WHERE id = %d",
+	"SELECT id FROM t1 WHERE plain = '%s' LIMIT %d, 5",                 // MySQL LIMIT offset, count
+	"INSERT INTO t2 (id, note) VALUES (1, 'x'), (%d, '%s')",
+	"SELECT CASE WHEN plain = '%s' THEN %d ELSE 0 END FROM t1",
+	"SELECT `id` FROM `t1` WHERE `plain` = '%s' AND `id` = %d",         // back-quoted identifiers
+	"SELECT id FROM t1 WHERE plain = 'it''s %s' AND id = +%d",
+	"SELECT id FROM t1 WHERE plain = 'back\\\\slash %s' AND id = %d", // backslash escape
+	"CREATE TABLE zz (a text DEFAULT '%s', b garbage %d)",              // DDL understood only in part
+	"INSERT INTO t2 (id, note) SELECT id, '%s' FROM t1 WHERE id = %d",
+	"INSERT INTO t2 (id, note) VALUES (%d, '%s') ON DUPLICATE KEY UPDATE note = 'dup-%s'",
+	"REPLACE INTO t2 (id, note) VALUES (%d, '%s')",
+}
+
 func (C16) Explore(x *kernel.Explorer, seed uint64) {
 	r := kernel.NewRNG(seed, 0xc16)
 	for i := 0; i < 4 && !x.Expired(); i++ {
 		plan := &kernel.Plan{Prop: "C16", Seed: kernel.Mix(seed, uint64(i)), Swarm: map[string]int64{
-			"chunk": int64(r.Intn(4)), "level": int64(r.Intn(3)), "format": int64(r.Intn(3)), "extended": int64(r.Intn(2)), "ignoreparse": int64(r.Intn(2))}}
+			"chunk": int64(r.Intn(4)), "level": int64(r.Intn(3)), "format": int64(r.Intn(3)), "extended": int64(r.Intn(2)), "ignoreparse": int64(r.Intn(2)), "mysql": int64(r.Intn(3) / 2), "depeof": int64(r.Intn(2))}}
 		n := 2 + r.Intn(8)
 		for j := 0; j < n; j++ {
-			plan.Ops = append(plan.Ops, kernel.Op{ID: j + 1, Kind: "stmt", A: []int64{int64(r.Intn(len(c16Statements)))}})
+			plan.Ops = append(plan.Ops, kernel.Op{ID: j + 1, Kind: "stmt", A: []int64{int64(r.Intn(27 * 28))}})
 		}
 		x.Exec(plan)
 	}
@@ -111,7 +143,13 @@ func (C16) Run(t *testing.T, plan *kernel.Plan, keepLog bool) *kernel.Result {
 		}
 		cols := []colKind{{Name: "c1", Envelope: "acrablock"}}
 		censorYAML := fmt.Sprintf("version: 0.85.0\nignore_parse_error: %v\nhandlers:\n  - handler: deny\n    tables:\n      - t9\n", plan.Sw("ignoreparse") == 1)
-		pw, err := NewPgWorld(w, rng, PgWorldConfig{SchemaYAML: schemaYAML(cols), CensorYAML: censorYAML, Clients: []string{owner}, ChunkMode: int(plan.Sw("chunk"))})
+		mysql := plan.Sw("mysql") == 1
+		statements, dbms := c16Statements, "pg"
+		if mysql {
+			statements, dbms = c16MyStatements, "mysql"
+		}
+		pw, err := NewPgWorld(w, rng, PgWorldConfig{SchemaYAML: schemaYAML(cols), CensorYAML: censorYAML, Clients: []string{owner}, ChunkMode: int(plan.Sw("chunk")),
+			MySQL: mysql, MyDeprecateEOF: plan.Sw("depeof") == 1})
 		if err != nil {
 			w.Violate("C16", "world-builds", "pg", err.Error())
 			return
@@ -127,10 +165,10 @@ func (C16) Run(t *testing.T, plan *kernel.Plan, keepLog bool) *kernel.Result {
 		}
 		var marks []mark
 		for i, op := range plan.Ops {
-			tmplIdx := int(op.Arg(0, 0)) % len(c16Statements)
+			tmplIdx := int(op.Arg(0, 0)) % len(statements)
 			sm := fmt.Sprintf("ZQLOGMARK%03dx%02d", i, tmplIdx)
 			nm := 770000000000 + int64(i)*1000003 + int64(tmplIdx)
-			tm := c16Statements[tmplIdx]
+			tm := statements[tmplIdx]
 			var args []interface{}
 			for _, verb := range verbsOf(tm) {
 				if verb == 's' {
@@ -154,7 +192,7 @@ func (C16) Run(t *testing.T, plan *kernel.Plan, keepLog bool) *kernel.Result {
 		time.Sleep(3 * time.Second)
 		out := captured.Bytes()
 		w.Res.Extra["log_bytes"] += int64(len(out))
-		site := fmt.Sprintf("pg/%s/%s", formatName, levelName)
+		site := fmt.Sprintf("%s/%s/%s", dbms, formatName, levelName)
 		seenStmt := map[int]bool{}
 		for _, m := range marks {
 			if seenStmt[m.stmt] {
@@ -164,12 +202,12 @@ func (C16) Run(t *testing.T, plan *kernel.Plan, keepLog bool) *kernel.Result {
 				seenStmt[m.stmt] = true
 				lineStart := bytes.LastIndexByte(out[:i], '\n') + 1
 				lineEnd := i + bytes.IndexByte(append(out[i:], '\n'), '\n')
-				tmplIdx := int(plan.Ops[m.stmt].Arg(0, 0)) % len(c16Statements)
+				tmplIdx := int(plan.Ops[m.stmt].Arg(0, 0)) % len(statements)
 				kind := map[int]string{7: "unparsable-statement", 9: "escape-string-literal", 12: "ddl-default-literal"}[tmplIdx]
-				if kind == "" {
+				if kind == "" || mysql {
 					kind = fmt.Sprintf("stmt%02d", tmplIdx)
 				}
-				w.Violate("C16", "no-literal-in-logs", "pg/"+kind, fmt.Sprintf("log output contains literal %q of statement %q: %.300q", m.text, script[m.stmt].SQL, out[lineStart:lineEnd]))
+				w.Violate("C16", "no-literal-in-logs", dbms+"/"+kind, fmt.Sprintf("log output contains literal %q of statement %q: %.300q", m.text, script[m.stmt].SQL, out[lineStart:lineEnd]))
 			}
 		}
 		w.State(site)
